@@ -2068,6 +2068,12 @@ class BaseInterpreter(Generic[TContext, TEvent]):
                 return [parent.states[parent.initial]]
             return []
 
+        # 🔀 `remembered` was built by iterating a set (or read back from a
+        #    snapshot in id order), so its order - and with it the order in
+        #    which restored states are entered - varied between runs. Use the
+        #    same stable key as exit ordering.
+        remembered = sorted(remembered, key=lambda n: (n.depth, n.id))
+
         if history_node.history == "deep":
             # 🌊 Deep history restores the full nested configuration; entering
             #    the deepest leaves re-enters their ancestors on the way.
